@@ -227,9 +227,13 @@ impl<B: Region> BlockQueue<B> {
     ///
     /// It's unsafe unless the array is accessed by only one thread (i.e. used as a thread-local array).
     unsafe fn push_relaxed(&self, block: B) -> Result<(), B> {
+        #[cfg(feature = "verif")]
+        crate::util::verif::rt::sched_point(crate::util::verif::rt::Kind::CursorLoad, crate::util::verif::rt::addr_of(&self.cursor));
         let i = self.cursor.load(Ordering::Relaxed);
         if i < Self::CAPACITY {
             self.set_entry(i, block);
+            #[cfg(feature = "verif")]
+            crate::util::verif::rt::sched_point(crate::util::verif::rt::Kind::CursorStore, crate::util::verif::rt::addr_of(&self.cursor));
             self.cursor.store(i + 1, Ordering::Relaxed);
             Ok(())
         } else {
@@ -239,9 +243,13 @@ impl<B: Region> BlockQueue<B> {
 
     /// Atomically pop an element from the array.
     fn pop(&self) -> Option<B> {
+        #[cfg(feature = "verif")]
+        crate::util::verif::rt::sched_point(crate::util::verif::rt::Kind::CursorLoad, crate::util::verif::rt::addr_of(&self.cursor));
         let i = self
             .cursor
             .fetch_update(Ordering::SeqCst, Ordering::SeqCst, |i| {
+                #[cfg(feature = "verif")]
+                crate::util::verif::rt::sched_point(crate::util::verif::rt::Kind::CursorCas, crate::util::verif::rt::addr_of(&self.cursor));
                 if i > 0 {
                     Some(i - 1)
                 } else {
@@ -257,6 +265,8 @@ impl<B: Region> BlockQueue<B> {
 
     /// Get array size
     fn len(&self) -> usize {
+        #[cfg(feature = "verif")]
+        crate::util::verif::rt::sched_point(crate::util::verif::rt::Kind::CursorLoad, crate::util::verif::rt::addr_of(&self.cursor));
         self.cursor.load(Ordering::SeqCst)
     }
 
@@ -278,7 +288,11 @@ impl<B: Region> BlockQueue<B> {
     /// Return the old array
     fn replace(&self, new_array: Self) -> Self {
         // Swap cursor
+        #[cfg(feature = "verif")]
+        crate::util::verif::rt::sched_point(crate::util::verif::rt::Kind::CursorLoad, crate::util::verif::rt::addr_of(&self.cursor));
         let temp = self.cursor.load(Ordering::Relaxed);
+        #[cfg(feature = "verif")]
+        crate::util::verif::rt::sched_point(crate::util::verif::rt::Kind::CursorStore, crate::util::verif::rt::addr_of(&self.cursor));
         self.cursor
             .store(new_array.cursor.load(Ordering::Relaxed), Ordering::Relaxed);
         new_array.cursor.store(temp, Ordering::Relaxed);
@@ -320,12 +334,18 @@ impl<B: Region> BlockPool<B> {
 
     /// Add a BlockArray to the global pool
     fn add_global_array(&self, array: BlockQueue<B>) {
+        #[cfg(feature = "verif")]
+        crate::util::verif::rt::sched_point(crate::util::verif::rt::Kind::PoolCountRmw, crate::util::verif::rt::addr_of(&self.count));
         self.count.fetch_add(array.len(), Ordering::SeqCst);
+        #[cfg(feature = "verif")]
+        let _vg = crate::util::verif::rt::lock_scope(crate::util::verif::rt::addr_of(&self.global_freed_blocks), crate::util::verif::rt::LockMode::RwWrite);
         self.global_freed_blocks.write().push(array);
     }
 
     /// Push a block to the thread-local queue
     pub fn push(&self, block: B) {
+        #[cfg(feature = "verif")]
+        crate::util::verif::rt::sched_point(crate::util::verif::rt::Kind::PoolCountRmw, crate::util::verif::rt::addr_of(&self.count));
         self.count.fetch_add(1, Ordering::SeqCst);
         let id = crate::scheduler::current_worker_ordinal();
         let failed = unsafe {
@@ -339,6 +359,8 @@ impl<B: Region> BlockPool<B> {
             debug_assert!(result.is_ok());
             let old_queue = self.worker_local_freed_blocks[id].replace(queue);
             assert!(!old_queue.is_empty());
+            #[cfg(feature = "verif")]
+            let _vg = crate::util::verif::rt::lock_scope(crate::util::verif::rt::addr_of(&self.global_freed_blocks), crate::util::verif::rt::LockMode::RwWrite);
             self.global_freed_blocks.write().push(old_queue);
         }
     }
@@ -348,14 +370,22 @@ impl<B: Region> BlockPool<B> {
         if self.len() == 0 {
             return None;
         }
+        #[cfg(feature = "verif")]
+        let _vg = crate::util::verif::rt::lock_scope(crate::util::verif::rt::addr_of(&self.head_global_freed_blocks), crate::util::verif::rt::LockMode::RwUpgradeable);
         let head_global_freed_blocks = self.head_global_freed_blocks.upgradeable_read();
         if let Some(block) = head_global_freed_blocks.as_ref().and_then(|q| q.pop()) {
+            #[cfg(feature = "verif")]
+            crate::util::verif::rt::sched_point(crate::util::verif::rt::Kind::PoolCountRmw, crate::util::verif::rt::addr_of(&self.count));
             self.count.fetch_sub(1, Ordering::SeqCst);
             Some(block)
         } else {
+            #[cfg(feature = "verif")]
+            let _vg2 = crate::util::verif::rt::lock_scope(crate::util::verif::rt::addr_of(&self.global_freed_blocks), crate::util::verif::rt::LockMode::RwWrite);
             let mut global_freed_blocks = self.global_freed_blocks.write();
             // Retry fast-alloc
             if let Some(block) = head_global_freed_blocks.as_ref().and_then(|q| q.pop()) {
+                #[cfg(feature = "verif")]
+                crate::util::verif::rt::sched_point(crate::util::verif::rt::Kind::PoolCountRmw, crate::util::verif::rt::addr_of(&self.count));
                 self.count.fetch_sub(1, Ordering::SeqCst);
                 return Some(block);
             }
@@ -363,6 +393,8 @@ impl<B: Region> BlockPool<B> {
             let blocks = global_freed_blocks.pop()?;
             let block = blocks.pop().unwrap();
             if !blocks.is_empty() {
+                #[cfg(feature = "verif")]
+                let _vu = crate::util::verif::rt::upgrade_scope(crate::util::verif::rt::addr_of(&self.head_global_freed_blocks));
                 let mut head_global_freed_blocks = head_global_freed_blocks.upgrade();
                 debug_assert!(head_global_freed_blocks
                     .as_ref()
@@ -370,6 +402,8 @@ impl<B: Region> BlockPool<B> {
                     .unwrap_or(true));
                 *head_global_freed_blocks = Some(blocks);
             }
+            #[cfg(feature = "verif")]
+            crate::util::verif::rt::sched_point(crate::util::verif::rt::Kind::PoolCountRmw, crate::util::verif::rt::addr_of(&self.count));
             self.count.fetch_sub(1, Ordering::SeqCst);
             Some(block)
         }
@@ -380,6 +414,8 @@ impl<B: Region> BlockPool<B> {
         if !self.worker_local_freed_blocks[id].is_empty() {
             let queue = self.worker_local_freed_blocks[id].replace(BlockQueue::new());
             if !queue.is_empty() {
+                #[cfg(feature = "verif")]
+                let _vg = crate::util::verif::rt::lock_scope(crate::util::verif::rt::addr_of(&self.global_freed_blocks), crate::util::verif::rt::LockMode::RwWrite);
                 self.global_freed_blocks.write().push(queue)
             }
         }
@@ -397,19 +433,35 @@ impl<B: Region> BlockPool<B> {
 
     /// Get total number of blocks in the whole BlockQueue
     pub fn len(&self) -> usize {
+        #[cfg(feature = "verif")]
+        crate::util::verif::rt::sched_point(crate::util::verif::rt::Kind::PoolCountLoad, crate::util::verif::rt::addr_of(&self.count));
         self.count.load(Ordering::SeqCst)
     }
 
     /// Iterate all the blocks in the BlockQueue
     pub fn iterate_blocks(&self, f: &mut impl FnMut(B)) {
+        #[cfg(feature = "verif")]
+        let _vg1 = crate::util::verif::rt::lock_scope(crate::util::verif::rt::addr_of(&self.head_global_freed_blocks), crate::util::verif::rt::LockMode::RwRead);
         if let Some(array) = &*self.head_global_freed_blocks.read() {
             array.iterate_blocks(f);
         }
+        #[cfg(feature = "verif")]
+        drop(_vg1);
+        #[cfg(feature = "verif")]
+        let _vg2 = crate::util::verif::rt::lock_scope(crate::util::verif::rt::addr_of(&self.global_freed_blocks), crate::util::verif::rt::LockMode::RwRead);
         for array in &*self.global_freed_blocks.read() {
             array.iterate_blocks(f);
         }
+        #[cfg(feature = "verif")]
+        drop(_vg2);
         for array in &self.worker_local_freed_blocks {
             array.iterate_blocks(f);
         }
     }
+}
+
+/// Verification hook (feature `verif`): the capacity of one `BlockQueue`.
+#[cfg(feature = "verif")]
+impl<B: Region> BlockPool<B> {
+    pub const VERIF_QUEUE_CAPACITY: usize = BlockQueue::<B>::CAPACITY;
 }
